@@ -148,7 +148,11 @@ def one(ctx, i, tmpdir):
         return
     bad_input = (i % 11 == 8) and not evalmode
     if bad_address:
-        pairs[-1] = (pairs[-1][0], pairs[-1][1][:-1] + ["zq_no_such_param"])
+        if (i // 11) % 2 and len(pairs[-1][1]) >= 2:
+            # a non-existent leading component in front of an otherwise valid address
+            pairs[-1] = (pairs[-1][0], ["ZqNoSuchScope"] + pairs[-1][1][1:])
+        else:
+            pairs[-1] = (pairs[-1][0], pairs[-1][1][:-1] + ["zq_no_such_param"])
     if bad_input:
         # an INPUT address that does not resolve; prefer an assignment/attribute as the output target
         anns = [l for l in out_anns if tuple(l["path"]) not in used_out]
